@@ -68,6 +68,7 @@ class _SourceReader:
     def __init__(self, inp: IO[bytes]) -> None:
         self._inp = inp
         self._head = b""
+        self._closed_itself = False
 
     def unread(self, head: bytes) -> None:
         self._head = head + self._head
@@ -92,24 +93,36 @@ class _SourceReader:
         return b"".join(chunks)
 
     def _read_some(self, size: int) -> bytes:
-        try:
-            return self._inp.read(size) or b""
-        except ValueError:
-            # Some sources (urllib3's HTTPResponse, i.e. requests' ``raw``) report
-            # ``closed`` as soon as their last byte was handed out and refuse the read
-            # that would merely have discovered the end of the stream.
-            if getattr(self._inp, "closed", False):
-                return b""
-            raise
+        return self._ask(size)
 
     def _read_all(self) -> bytes:
+        # until the source says it has ended: read() of a raw source in non-blocking
+        # mode returns what has arrived so far
+        chunks = []
+        while chunk := self._ask(None):
+            chunks.append(chunk)
+        return b"".join(chunks)
+
+    def _ask(self, size: int | None) -> bytes:
         try:
-            # not read(-1): http.client.HTTPResponse reads past the body for that
-            return self._inp.read() or b""
+            # read(), not read(-1): http.client.HTTPResponse reads past the body for -1
+            data = self._inp.read() if size is None else self._inp.read(size)
         except ValueError:
-            if getattr(self._inp, "closed", False):
+            # Some sources close themselves as soon as their last byte was handed out
+            # and refuse the read that would merely have discovered the end of the
+            # stream. A source closed by the caller in the middle of the stream is an
+            # error like any other.
+            if self._closed_itself:
                 return b""
             raise
+        if data is None:
+            msg = (
+                "the input has no data yet (it is in non-blocking mode); "
+                "parsing needs a source that waits for data"
+            )
+            raise BlockingIOError(msg)
+        self._closed_itself = bool(getattr(self._inp, "closed", False))
+        return data
 
 
 def frame_iterator(inp: IO[bytes]) -> Generator[jelly.RdfStreamFrame]:
